@@ -3,7 +3,10 @@
     [conformsb] is an INDEPENDENT reader: it walks the OBSERVED expression
     tokens in lockstep with the registry and with the OBSERVED generated module
     (parsed with [Checkers/Parse.v]); it shares no code with
-    [Model/ExampleRust.v], [Model/Emit.v] or [Model/TypePath.v]. *)
+    [Model/ExampleRust.v], [Model/Emit.v] or [Model/TypePath.v].  The one definition it takes
+    from the specification file [Model/Conforms.v] is [copy_tyb] ("the generated type is Copy",
+    a predicate on the registry alone), used to refuse the array repeat form [[ e ; n ]], n >= 2,
+    for an element type that is not [Copy]. *)
 From Coq Require Import List NArith ZArith Bool String Ascii.
 From V Require Import Base.Util Base.Strings Base.Result Model.Registry Model.Settings Model.Subst
   Model.Builders Model.RngWords Model.Generate Model.ExampleRust Model.Conforms Checkers.Parse Corr.RunTG.
@@ -393,12 +396,16 @@ Section Reader.
                     let? r2 := C e r1 in
                     match r2 with
                     | ";" :: n :: "]" :: rest =>
-                        (* [e; n]: n = the declared length *)
+                        (* [e; n]: n = the declared length; a repeat expression of length >= 2
+                           is a value of the array type only if the element type is [Copy]
+                           ([Model.Conforms.copy_ty], a predicate on the registry: primitives
+                           other than str, arrays / tuples / compacts of such; never a generated
+                           struct / enum, a Vec or a bit sequence) *)
                         let ok := match strip_suffix "usize" n with
                                   | Some d => option_eqb N.eqb (decimal d) (Some len)
                                   | None => option_eqb N.eqb (decimal n) (Some len)
                                   end in
-                        if ok then Some rest else None
+                        if ok && ((len <=? 1) || copy_tyb r e) then Some rest else None
                     | "," :: r3 =>
                         let? nr := read_elems C (S (List.length r3)) e r3 1 in
                         if fst nr =? len then Some (snd nr) else None
@@ -614,8 +621,30 @@ Definition hyp_marker : case -> bool :=
   ex_obs (fun _ o => match eo_out o with OOk t => existsb (String.eqb "PhantomData") t | _ => false end).
 Definition hyp_compact_wrapped : case -> bool :=
   ex_obs (fun _ o => match eo_out o with OOk t => existsb (String.eqb "Compact") t | _ => false end).
+(** the side condition of the array repeat form is exercised: some Ok example of an ARRAY entry
+    with >= 2 elements whose element type is not [copy_tyb] (the reader refuses the repeat form
+    there), resp. is [copy_tyb] and the example ends in [; <n> ]] *)
+Definition array_obs (want_copy : bool) (c : case) : bool :=
+  ex_obs (fun _ o =>
+    match eo_out o with
+    | OOk t =>
+        match lookup (c_reg c) (eo_id o) with
+        | Some ty =>
+            match t_def ty with
+            | TDArray len e =>
+                (2 <=? len) && Bool.eqb (copy_tyb (c_reg c) e) want_copy &&
+                (if want_copy then match rev t with "]" :: _ :: ";" :: _ => true | _ => false end else true)
+            | _ => false
+            end
+        | None => false
+        end
+    | _ => false
+    end) c.
 Definition hyp_module (c : case) : bool :=
   match parsed_module c with Some (Some _) => true | _ => false end.
+(** (only cases whose module was generated and parses: [prop_conforms] is evaluated there) *)
+Definition hyp_array_noncopy (c : case) : bool := hyp_module c && array_obs false c.
+Definition hyp_array_copy_repeat (c : case) : bool := hyp_module c && array_obs true c.
 (** some Ok example mentions the root module, i.e. was checked against a generated item *)
 Definition hyp_item_checked (c : case) : bool :=
   hyp_module c &&
